@@ -125,7 +125,7 @@ class C02(C01):
     def compare(self, case: dict, impl: Any, model: List[str]) -> Optional[str]:
         tr = impl.get("trace", {})
         k = 0
-        if "internals" in impl and not impl.get("chop_error") and not impl.get("unrealisable"):
+        if "internals" in impl and not impl.get("chop_error") and not impl.get("unrealisable") and not impl.get("extreme"):
             why = pc.compare_with_model(impl, model[0])
             if why:
                 return why
@@ -142,7 +142,7 @@ class C02(C01):
         oc = impl["outcome"]
         if oc == "hang" or impl.get("trace", {}).get("outcome") == "hang":
             return [{"site": "Mesh.write:hang", "what": "propagation did not return within the time limit"}]
-        if impl.get("unrealisable") or oc == "ValueError":
+        if impl.get("unrealisable") or impl.get("extreme") or oc == "ValueError":
             return out
         if exp == "undefined" and oc != "UndefinedGradingsError":
             out.append({"site": "Mesh.write:family-without-chop-not-reported-as-undefined", "what": f"outcome {oc}"})
